@@ -82,6 +82,12 @@ func (c *Cache) skew() time.Duration {
 	return c.maxSkew
 }
 
+// clientTime combines the Authenticator's CTime and Cusec. The value is used as a map key: it is normalised to UTC
+// because the same instant decoded with a zone offset would otherwise not compare equal.
+func clientTime(a types.Authenticator) time.Time {
+	return a.CTime.Add(time.Duration(a.Cusec) * time.Microsecond).UTC()
+}
+
 // AddEntry adds an entry to the Cache.
 func (c *Cache) AddEntry(sname types.PrincipalName, a types.Authenticator) {
 	c.mux.Lock()
@@ -91,7 +97,7 @@ func (c *Cache) AddEntry(sname types.PrincipalName, a types.Authenticator) {
 
 // addEntry adds an entry to the Cache. The caller must hold the write lock.
 func (c *Cache) addEntry(sname types.PrincipalName, a types.Authenticator) {
-	ct := a.CTime.Add(time.Duration(a.Cusec) * time.Microsecond)
+	ct := clientTime(a)
 	if ce, ok := c.entries[a.CName.PrincipalNameString()]; ok {
 		ce.replayMap[replayKey{ct, sname.PrincipalNameString()}] = replayCacheEntry{
 			presentedTime: time.Now().UTC(),
@@ -136,7 +142,7 @@ func (c *Cache) ClearOldEntries(d time.Duration) {
 // IsReplay tests if the Authenticator provided is a replay within the duration defined. If this is not a replay add the entry to the cache for tracking.
 // The look-up and the insert are performed under one write lock so that concurrent presentations of the same Authenticator cannot both be accepted.
 func (c *Cache) IsReplay(sname types.PrincipalName, a types.Authenticator) bool {
-	ct := a.CTime.Add(time.Duration(a.Cusec) * time.Microsecond)
+	ct := clientTime(a)
 	c.mux.Lock()
 	defer c.mux.Unlock()
 	if ce, ok := c.entries[a.CName.PrincipalNameString()]; ok {
